@@ -6,6 +6,7 @@ use crate::ast::*;
 use crate::enumerate::*;
 use crate::print::grammar_text;
 
+pub mod c03;
 pub mod e1;
 pub mod e1b;
 
@@ -143,6 +144,7 @@ impl Tier {
 pub fn build(prop: &str, tier: Tier) -> Vec<Case> {
     match prop {
         "C01" => e1::c01(tier),
+        "C03" => c03::c03(tier),
         "C02" => e1::c02(tier),
         "C04" => e1::c04(tier),
         "C08" => e1::c08(tier),
